@@ -105,7 +105,7 @@ End Spec.
    own tree with its own callback; a nested one takes place iff the call that starts it does *)
 Fixpoint spec_prog (p : prog) : list (option (list event * Z)) :=
   match p with
-  | Prog v codes nested =>
+  | Prog v _ codes nested =>
       let out := spec_visit (sched_fun codes) v in
       Some out :: (fix go (l : list (Z * prog)) :=
                      match l with
